@@ -232,7 +232,9 @@ register("C10", {
             "http1/http2 switches x server ALPN preference x sni_hostname on/off x hosts (names, "
             "IPv4, IPv6 literal) x explicit/implicit ports; histories of 2..6 requests over 2..4 "
             "near-miss origins (same host other scheme, same host other port, explicit-default vs "
-            "implicit port) through one pool, one or two callers; oracle on the ledger of "
+            "implicit port) through one pool, one or two callers; a fifth of the HTTP proxies "
+            "refuse CONNECT (3xx/4xx/5xx) and a sixth of the SOCKS proxies refuse the request: "
+            "nothing meant for the origin may then be written; oracle on the ledger of "
             "connect/CONNECT/SOCKS targets, TLS layers, SNI, ALPN offers and the protocol the "
             "origin peer sniffed; all runs non-trivial",
     "assumptions": ["TLS is a recorded transparent layer (no cryptography)"],
